@@ -383,8 +383,38 @@ def fuzz(seed, runs, corpus, switches=frozenset()):
     return stats
 
 
+def enumerate_tokens(part, nparts, switches=frozenset()):
+    """Every extreme token in every operand position of every statement and function (the slot table of C10: 144 templates), and as a DATA
+    item, a line number and a jump target: text or a documented refusal, never an internal exception (complete enumeration)."""
+    from vf.props import c10
+
+    stats = Stats()
+    templates = ["10 " + t for t in c10.NUM_SLOTS + c10.STR_SLOTS] + ["10 DATA {n},1\n20 READ A,B", "10 DATA 1,{n}\n20 READ A$,B$", "{n} A=1", "10 GOTO {n}", "10 ON A GOSUB 10,{n}",
+                                                                        "10 DIM A({n})", "10 DIM A$({n},2)", "10 CLEAR {n}", "10 IF A=1 THEN {n}", "10 IF A=1 THEN 10 ELSE {n}"]
+    k = 0
+    for tok in EXTREME + ["&H ", "& H", "&HG", "&HOME", "1E5", ".5E-3", "1D5", "1E+", "0.", ".0", "00", "-0", "1.2.3", "&HFFFFFF0", "\"", "\"A", "A$$", "A%", "A!", "A#"]:
+        for t in templates:
+            k += 1
+            if k % nparts != part:
+                continue
+            src = t.replace("{n}", tok).replace("{s}", tok) + "\n"
+            case = {"source": src, "options": {}}
+            try:
+                fid = check_case(case)
+            except Violation as v:
+                stats.fail(v.detail, v.case)
+                return stats
+            if fid:
+                stats.known[fid] += 1
+            st_ = case.get("_status", "?")
+            stats.case(key=src, nontrivial=st_ in ("ok", "refused"), classes=["token_sweep", "status_" + st_] + (["tolerated_listed_finding"] if fid else []), sample={"source": src})
+    return stats
+
+
 def plan(tier, seed, switches):
     if tier == "quick":
-        return [("campaign", [dict(seed=seed * 100 + k, n=700, switches=switches) for k in range(4)] + [dict(seed=seed * 100 + 9, n=150, switches=switches, cli=True)])]
+        return [("campaign", [dict(seed=seed * 100 + k, n=700, switches=switches) for k in range(4)] + [dict(seed=seed * 100 + 9, n=150, switches=switches, cli=True)]),
+                ("enumerate_tokens", [dict(part=k, nparts=8, switches=switches) for k in range(8)])]
     return [("campaign", [dict(seed=seed * 1000 + k, n=10000, switches=switches) for k in range(11)] + [dict(seed=seed * 1000 + 99, n=3000, switches=switches, cli=True)]),
-            ("fuzz", [dict(seed=seed * 10 + k, runs=150000, corpus=("examples" if k % 2 else "empty")) for k in range(4)])]
+            ("fuzz", [dict(seed=seed * 10 + k, runs=150000, corpus=("examples" if k % 2 else "empty")) for k in range(4)]),
+            ("enumerate_tokens", [dict(part=k, nparts=8, switches=switches) for k in range(8)])]
